@@ -12,7 +12,7 @@ from . import common
 PROPERTY_ID = "C11"
 jkey = tk.jkey
 OPS = ("replace", "replace_range", "replace_with", "replace_range_with", "insert", "delete", "delete_range")
-ZOO_TOTAL = ("basic", "list", "strict_hb", "title", "fixed", "struct", "iso", "table")
+ZOO_TOTAL = ("basic", "list", "strict_hb", "title", "fixed", "struct", "iso", "table", "hp")
 
 
 def describe():
@@ -41,6 +41,7 @@ def units(tier, seed):
         {"sid": "iso", "family": "iso", "size": 7 if q else 9, "donor": ("iso", 7), "max_slices": 30 if q else 200},
         {"sid": "table", "family": "table", "size": 10 if q else 16, "donor": ("table", 12), "max_slices": 330},
         {"sid": "strict_hb", "family": "strict", "size": 9 if q else 11, "donor": ("strict", 9), "max_slices": 30 if q else 200},
+        {"sid": "hp", "family": "hp", "size": 9 if q else 11, "donor": ("hp", 8), "max_slices": 30 if q else 200},
     ]
     extra = [
         {"sid": "title", "family": "title", "size": 9 if q else 12, "donor": ("title", 9), "max_slices": 30 if q else 200},
@@ -255,7 +256,8 @@ def run_unit(u):
         return res
     if u["kind"] == "zoo":
         c, sc, docs = common.unit_docs(u)
-        pool = common.pool_slices(u["sid"], u["donor"][0], u["donor"][1])
+        # the donor scope uses UPPER-CASE text so that inserted content can be told from the document's own
+        pool = common.pool_slices(u["sid"], u["donor"][0], u["donor"][1], texts=[t.upper() if t.upper() != t else t + "Z" for t in sc.get("texts", ["a"])])
         pools = ops.default_pools(c, sc, pool, u.get("max_slices"), offset=u.get("offset", 0))
         for d in docs:
             check_doc(c, sc, d, pools, res, u["sid"] in ZOO_TOTAL)
